@@ -793,7 +793,7 @@ func init() {
 			"oracle = reference selection (reverse, skip, take) + forloop formulas + a reference interpreter for the nested programs; state = (length, |selected|); transition = one loop program rendered",
 		Assumptions: []string{
 			"negative offset/limit and cols: 0 are unspecified (no panic required only)",
-			"cycle counters restart with every execution of a loop (per-loop state as described in the anchors); at most one ungrouped cycle tag per loop body",
+			"cycle counters restart with every execution of a loop (per-loop state as described in the anchors); at most one cycle tag per group (named or unnamed) and loop body: what two tags of one group with value lists of different lengths emit is not decided by the statement",
 			"tablerow class names are not compared; tablerow has no else clause in this grammar",
 		},
 		Setup: func(string) {
